@@ -989,6 +989,10 @@ package http2
 //@ |   (r0 == nil || !(iserror(r0) && errframe(r0) == FrameGoAway)) ==> strm.headerListSize <= sc.maxHeaderList
 //@ # ---- a trailer block must end the stream (RFC 7540 8.1) ----
 //@ ensures listmono: strm.headerListSize >= old(strm.headerListSize)
+//@ # what is kept of a field that a frame boundary cut in half is held for the peer like the fields before it: with a limit
+//@ # configured, charged size plus kept octets stay within it, however many CONTINUATION frames the field is spread over (C13)
+//@ ensures carry: r0 == nil && sc.maxHeaderList > 0 && old(strm.headerListSize) <= sc.maxHeaderList ==>
+//@ |   strm.headerListSize + len(strm.previousHeaderBytes) <= sc.maxHeaderList
 //@ ensures trailers: old(strm.headersFinished) && !(hasflag(fr.flags, 1) && hasflag(fr.flags, 4)) ==> r0 != nil
 //@ # the table's backing array is the one it had or a new one: tables never come to share storage
 //@ ensures place: dynplace(sc.dec)
